@@ -2,5 +2,322 @@
 
 package consensus
 
-// synchronous-suffix executor (C03) — see DESIGN.md 5/C03.
-func (net *vcNet) syncTail(w *vcWriter, run int, in *vcInput) {}
+// Synchronous-suffix executor (C03, DESIGN.md 5/C03).
+//
+// After an arbitrary asynchronous prefix (a TLC schedule or a random walk, with Byzantine
+// messages) the driver switches to the property's hypothesis: every message a correct node
+// holds reaches every other correct node BEFORE any timeout fires ("idealised gossip",
+// majority claims included: the votes a node holds — also those signed by faulty
+// validators — and the blocks it holds are offered to everybody), and only at quiescence
+// the single timeout held by each node's ticker fires.  The ticker is emulated with the
+// exact one-slot overwrite rule of consensus/ticker.go (timeoutRoutine), because a lost
+// timeout is precisely the kind of liveness bug this property is about.  Faulty validators
+// may keep sending arbitrary messages between gossip rounds.  The driver only records;
+// TLC judges BoundedRounds / Termination on the recorded trace (TMConsensusTrace).
+
+import (
+	"math/rand"
+	"sort"
+	"strconv"
+
+	cstypes "github.com/tendermint/tendermint/consensus/types"
+	tmproto "github.com/tendermint/tendermint/proto/tendermint/types"
+)
+
+type vcSlot struct {
+	set    bool
+	height int64
+	round  int32
+	step   cstypes.RoundStepType
+	fired  bool
+}
+
+// the overwrite rule of timeoutTicker.timeoutRoutine
+func (s *vcSlot) schedule(ti timeoutInfo) {
+	if s.set {
+		if ti.Height < s.height {
+			return
+		} else if ti.Height == s.height {
+			if ti.Round < s.round {
+				return
+			} else if ti.Round == s.round {
+				if s.step > 0 && ti.Step <= s.step {
+					return
+				}
+			}
+		}
+	}
+	*s = vcSlot{set: true, height: ti.Height, round: ti.Round, step: ti.Step}
+}
+
+func (net *vcNet) allDecided() bool {
+	for _, nn := range net.corr {
+		n := net.nodes[nn]
+		if n.panicked == "none" && n.cs.blockStore.Height() < 1 {
+			return false
+		}
+	}
+	return true
+}
+
+func (net *vcNet) syncTail(w *vcWriter, run int, in *vcInput) {
+	rng := rand.New(rand.NewSource(int64(run)*7919 + 13))
+	gstRounds := map[string]int{}
+	for _, nn := range net.corr {
+		gstRounds[nn] = int(net.nodes[nn].cs.Round)
+	}
+	if !net.gstOn {
+		net.gstOn = true
+		w.emit(map[string]interface{}{"ev": "GST", "run": run, "rounds": gstRounds, "bound": net.bound})
+	}
+	lastOffer := map[string]string{}
+	byzBudget := 12
+	steps := 0
+	limit := 4000
+	outcome := "decided"
+	for steps < limit {
+		if net.allDecided() {
+			break
+		}
+		progressed := false
+		// 1. every node handles its own queue
+		for _, nn := range net.corr {
+			n := net.nodes[nn]
+			for len(n.inq) > 0 && steps < limit {
+				if !net.step(w, run, vcStep{Name: "ProcessInternal", N: nn}) {
+					break
+				}
+				steps++
+				progressed = true
+			}
+		}
+		// 2. idealised gossip
+		for _, nn := range net.corr {
+			n := net.nodes[nn]
+			if n.panicked != "none" || n.cs.Height != 1 {
+				continue
+			}
+			// idealised gossip re-offers a message until the receiver holds it (the reactor sends per
+			// peer round state); an offer is not repeated while the receiver's (round, step, expected
+			// part-set header) is unchanged, so rejected messages cannot loop
+			tag := func() string {
+				h := "nil"
+				if n.cs.ProposalBlockParts != nil {
+					h = net.nameOfPSH(n.cs.ProposalBlockParts.Header())
+				}
+				return strconv.Itoa(int(n.cs.Round)) + "/" + strconv.Itoa(int(n.cs.Step)) + "/" + h
+			}
+			offer := func(m vcMsg) {
+				key := nn + "<-" + vcKey(m)
+				if lastOffer[key] == tag() {
+					return
+				}
+				lastOffer[key] = tag()
+				if net.step(w, run, vcStep{Name: "Deliver", N: nn, M: m}) {
+					steps++
+					progressed = true
+				}
+			}
+			// proposals (own ones of correct proposers and any proposal some correct node accepted)
+			for _, m := range net.heldProposals() {
+				if m.Src != nn && n.cs.Proposal == nil && int(n.cs.Round) == m.R {
+					offer(m)
+				}
+			}
+			// blocks: whatever the node is waiting for and some correct node holds
+			if n.cs.ProposalBlockParts != nil && n.cs.ProposalBlock == nil {
+				want := net.nameOfPSH(n.cs.ProposalBlockParts.Header())
+				for _, name := range net.heldBlocks() {
+					if name == want {
+						offer(vcMsg{T: "block", Src: "-", R: -1, V: name, Pol: -2})
+					}
+				}
+			}
+			// votes the node does not hold yet
+			for _, m := range net.heldVotes() {
+				if m.Src == nn {
+					continue
+				}
+				vs := n.cs.Votes.Prevotes(int32(m.R))
+				if m.T == "precommit" {
+					vs = n.cs.Votes.Precommits(int32(m.R))
+				}
+				if vs == nil || vs.GetByIndex(net.index[m.Src]) == nil {
+					offer(m)
+				}
+			}
+		}
+		if progressed {
+			continue
+		}
+		// 3. faulty validators keep doing anything
+		if in.ByzAfter && byzBudget > 0 && len(net.byz) > 0 && rng.Intn(2) == 0 {
+			cands := net.enabledSteps(rng)
+			byzc := []vcStep{}
+			for _, c := range cands {
+				if c.Name == "Deliver" && net.byz[c.M.Src] {
+					byzc = append(byzc, c)
+				}
+			}
+			if len(byzc) > 0 {
+				byzBudget--
+				if net.step(w, run, byzc[rng.Intn(len(byzc))]) {
+					steps++
+				}
+				continue
+			}
+		}
+		// 4. quiescence: timers run at comparable speed on all nodes, so the pending timeouts that
+		// were scheduled for the earliest (round, step) fire first; then messages flow again
+		fired := false
+		minR, minS := int32(1<<30), cstypes.RoundStepType(100)
+		for _, nn := range net.corr {
+			n := net.nodes[nn]
+			sl := &n.slot
+			if n.panicked == "none" && n.cs.Height == 1 && sl.set && !sl.fired && sl.height == 1 {
+				if sl.round < minR || (sl.round == minR && sl.step < minS) {
+					minR, minS = sl.round, sl.step
+				}
+			}
+		}
+		for _, nn := range net.corr {
+			n := net.nodes[nn]
+			if n.panicked != "none" || n.cs.Height != 1 {
+				continue
+			}
+			sl := &n.slot
+			if sl.set && !sl.fired && sl.height == 1 && sl.round == minR && sl.step == minS {
+				sl.fired = true
+				st := vcStep{Name: "Timeout", N: nn, K: vcKindOfStep(sl.step), M: vcMsg{T: "tick", Src: "-", R: int(sl.round), V: "-", Pol: -2}}
+				if net.step(w, run, st) {
+					steps++
+					fired = true
+				}
+			}
+		}
+		if !fired {
+			outcome = "stuck: undecided, nothing deliverable, no timeout pending"
+			break
+		}
+	}
+	if steps >= limit {
+		outcome = "step limit reached"
+	}
+	rounds := map[string]int{}
+	for _, nn := range net.corr {
+		rounds[nn] = int(net.nodes[nn].cs.Round)
+	}
+	w.emit(map[string]interface{}{"ev": "SyncEnd", "run": run, "outcome": outcome, "steps": steps})
+	_ = rounds
+}
+
+// proposals some correct node made or accepted
+func (net *vcNet) heldProposals() []vcMsg {
+	seen := map[string]bool{}
+	out := []vcMsg{}
+	for _, k := range net.soupKeys {
+		it := net.soup[k]
+		if it.m.T == "proposal" && !seen[vcKey(it.m)] {
+			seen[vcKey(it.m)] = true
+			out = append(out, it.m)
+		}
+	}
+	for _, nn := range net.corr {
+		cs := net.nodes[nn].cs
+		if cs.Height == 1 && cs.Proposal != nil && int(cs.Proposal.Round) < len(net.propSeq) {
+			m := vcMsg{T: "proposal", Src: net.propSeq[cs.Proposal.Round], R: int(cs.Proposal.Round),
+				V: net.nameOfBlockID(cs.Proposal.BlockID), Pol: int(cs.Proposal.POLRound)}
+			if !seen[vcKey(m)] {
+				seen[vcKey(m)] = true
+				out = append(out, m)
+			}
+		}
+	}
+	sort.Slice(out, func(i, j int) bool { return vcKey(out[i]) < vcKey(out[j]) })
+	return out
+}
+
+// blocks some correct node holds (so that idealised gossip can hand them to the others)
+func (net *vcNet) heldBlocks() []string {
+	held := map[string]bool{}
+	for _, nn := range net.corr {
+		cs := net.nodes[nn].cs
+		if cs.ProposalBlock != nil {
+			held[net.nameOfHash(cs.ProposalBlock.Hash())] = true
+		}
+		if cs.LockedBlock != nil {
+			held[net.nameOfHash(cs.LockedBlock.Hash())] = true
+		}
+		if cs.ValidBlock != nil {
+			held[net.nameOfHash(cs.ValidBlock.Hash())] = true
+		}
+		if cs.blockStore.Height() >= 1 {
+			if b := cs.blockStore.LoadBlock(1); b != nil {
+				held[net.nameOfHash(b.Hash())] = true
+			}
+		}
+	}
+	out := []string{}
+	for h := range held {
+		if _, ok := net.blocks[h]; ok {
+			out = append(out, h)
+		}
+	}
+	sort.Strings(out)
+	return out
+}
+
+// every vote some correct node holds in its vote sets for height 1 (its own, other correct
+// nodes' and the faulty validators')
+func (net *vcNet) heldVotes() []vcMsg {
+	seen := map[string]bool{}
+	out := []vcMsg{}
+	for _, nn := range net.corr {
+		cs := net.nodes[nn].cs
+		if cs.Height != 1 {
+			// a decided node still offers the precommits that made it decide (catch-up gossip)
+			if sc := cs.blockStore.LoadSeenCommit(1); sc != nil {
+				for i, sig := range sc.Signatures {
+					if sig.Absent() {
+						continue
+					}
+					v := "nil"
+					if sig.ForBlock() {
+						v = net.nameOfBlockID(sc.BlockID)
+					}
+					m := vcMsg{T: "precommit", Src: net.names[i], R: int(sc.Round), V: v, Pol: -2}
+					if !seen[vcKey(m)] {
+						seen[vcKey(m)] = true
+						out = append(out, m)
+					}
+				}
+			}
+			continue
+		}
+		for r := 0; r <= net.maxRound; r++ {
+			for ti, t := range []string{"prevote", "precommit"} {
+				vs := cs.Votes.Prevotes(int32(r))
+				if ti == 1 {
+					vs = cs.Votes.Precommits(int32(r))
+				}
+				if vs == nil {
+					continue
+				}
+				for _, name := range net.names {
+					if vt := vs.GetByIndex(net.index[name]); vt != nil {
+						m := vcMsg{T: t, Src: name, R: r, V: net.nameOfBlockID(vt.BlockID), Pol: -2}
+						if !seen[vcKey(m)] {
+							seen[vcKey(m)] = true
+							out = append(out, m)
+						}
+					}
+				}
+			}
+		}
+	}
+	sort.Slice(out, func(i, j int) bool { return vcKey(out[i]) < vcKey(out[j]) })
+	return out
+}
+
+var _ = strconv.Itoa
+var _ = tmproto.PrevoteType
